@@ -51,6 +51,19 @@ pub struct SessionResult {
 
 const READ_LIMIT: Duration = Duration::from_millis(4000);
 
+/// A time limit that does NOT poll the future once more when the limit is reached (tokio::time::timeout does, which turns a
+/// reader that went to sleep without arranging a wake-up into a merely slow one): the timer is looked at first.
+async fn limited<T>(limit: Duration, fut: impl std::future::Future<Output = T>) -> Result<T, ()> {
+    tokio::pin!(fut);
+    let sleep = tokio::time::sleep(limit);
+    tokio::pin!(sleep);
+    tokio::select! {
+        biased;
+        _ = &mut sleep => Err(()),
+        r = &mut fut => Ok(r),
+    }
+}
+
 fn nocfg() -> RandomCfg {
     RandomCfg { seg: 4, p_err: 0.0, p_pend: 0.0, wseg: 2, frames_left: 0, max_len: 0, classes: vec![], close_at_end: false, fixed: None, chunk: 0, burst: 0 }
 }
@@ -254,7 +267,7 @@ pub fn run_udp_tokio(pool: Arc<Pool>, s: &Session, seed: u64) -> SessionResult {
                 },
                 Op::Read(exp) => {
                     book.ev(json!({"ev": "ReadCall"}));
-                    let r = tokio::time::timeout(READ_LIMIT, framed.read()).await;
+                    let r = limited(READ_LIMIT, framed.read()).await;
                     let mut o = match r {
                         Err(_) => Outcome { t: "timeout".into(), id: 0, ver: -1, detail: "read() did not complete".into() },
                         Ok(x) => classify_result(&mut book.sh, Ok(x)),
@@ -398,7 +411,7 @@ pub fn run_ws(pool: Arc<Pool>, s: &Session, seed: u64) -> SessionResult {
                 },
                 Op::Read(exp) => {
                     book.ev(json!({"ev": "ReadCall"}));
-                    let r = tokio::time::timeout(READ_LIMIT, framed.read()).await;
+                    let r = limited(READ_LIMIT, framed.read()).await;
                     let o = match r {
                         Err(_) => Outcome { t: "timeout".into(), id: 0, ver: -1, detail: "read() did not complete".into() },
                         Ok(x) => classify_result(&mut book.sh, Ok(x)),
@@ -709,6 +722,13 @@ pub fn random_plan(transport: &str, pool: &Pool, seed: u64, bytes_target: usize,
                 unpacked += l;
                 total += l;
                 frame_ends.push_back(produced);
+            }
+            // now and then a long run of messages that carry no InSim data, all of them waiting when the next read is made
+            if unpacked > 0 && rng.gen_bool(0.06) {
+                for _ in 0..rng.gen_range(33..70) {
+                    let kind = ["text", "ping", "empty"][rng.gen_range(0..3)];
+                    ops.push(Op::WsMsg(kind.to_string(), 0));
+                }
             }
             // pack some of it
             while unpacked > 0 && rng.gen_bool(0.8) {
